@@ -465,3 +465,22 @@ func generalise(s string) string {
 	}
 	return string(out)
 }
+
+
+var dirtyMsg *diam.Message
+
+// WireViaWriteTo returns the bytes Message.WriteTo emits, after first pushing a message full
+// of 0xFF bytes through the same (pooled) serialisation path so that a reused buffer is dirty.
+func WireViaWriteTo(m *diam.Message) ([]byte, error) {
+	if dirtyMsg == nil {
+		dirtyMsg = diam.NewMessage(257, 0x80, 0, 0xffffffff, 0xffffffff, dict.Default)
+		dirtyMsg.NewAVP(60001, 0xff, 0xffffffff, datatype.OctetString(bytes.Repeat([]byte{0xff}, 980)))
+	}
+	var sink bytes.Buffer
+	if _, err := dirtyMsg.WriteTo(&sink); err != nil {
+		return nil, err
+	}
+	var out bytes.Buffer
+	_, err := m.WriteTo(&out)
+	return out.Bytes(), err
+}
